@@ -45,6 +45,30 @@ def gen_stream(rng, name, direction, nframes):
     return uid, frames, msgs
 
 
+DIRECTED = {'req': ['writeRegisters', 'writeCoils', 'readWrite', 'writeFileRecord', 'readFileRecord'],
+            'resp': ['readDeviceInfo', 'readHolding', 'readCoils', 'getCommEventLog', 'reportSlaveId', 'writeFileRecord', 'exception']}
+
+
+def directed_stream(rng, name, direction):
+    """one frame of every variable-length class (the RTU length oracle has a rule of its own for each)"""
+    gen = msggen.gen_req if direction == 'req' else msggen.gen_resp
+    uid, frames, msgs = 1, [], []
+    for t in DIRECTED[direction]:
+        for _ in range(30):
+            m = gen(rng, t)
+            if t == 'readDeviceInfo' and (not m['information'] or m['number_of_objects'] != len(m['information'])):
+                continue
+            if not in_range(direction, m) or not devinfo_fits(m):
+                continue
+            f = framelib.real_build(name, direction, m, uid, rng.randrange(65536), 0)
+            if isinstance(f, dict) or len(f) > 120 or not frame_ok(name, direction, m, f):
+                continue
+            frames.append(f)
+            msgs.append(m)
+            break
+    return uid, frames, msgs
+
+
 def cut(stream, cuts):
     pts = [0] + sorted(cuts) + [len(stream)]
     return [stream[a:b] for a, b in zip(pts, pts[1:])]
@@ -124,6 +148,11 @@ def run(ctx):
             whole = framelib.deliveries(framelib.real_feed(c['framer'], c['dir'], [c['uid']], False, [[b for ch in c['chunks'] for b in ch]]))
             if framelib.raised(calls) or framelib.deliveries(calls) != whole:
                 rep.violation('deliveries depend on the chunking', c, got=framelib.deliveries(calls)[:3], expected=whole[:3])
+    for name in framelib.STREAM_FRAMERS:
+        for direction in ('req', 'resp'):
+            s = directed_stream(rng, name, direction)
+            if s[1]:
+                check_streams(ctx, rep, name, direction, [s])
     rounds = ctx.scale(6, 120)
     for _ in range(rounds):
         if ctx.time_left() < 20:
